@@ -626,7 +626,10 @@ def run(ctx):
                 "65..84 (several chunks), blocking / timed / non-blocking, up to 6 rounds of events before each send "
                 "and wake-ups during its wait (window adjust incl. 0, close, peer CLOSE, transport loss, "
                 "shutdown_write/shutdown(1|2), peer EOF, spurious wake-ups, elapsed time); plus the fixed live matrix "
-                "mode x prior event x stream x window on an unmodified Channel with a real second thread; a case is "
+                "mode x prior event x stream x window on an unmodified Channel with a real second thread; the argument as "
+                "bytes / bytearray / memoryview / str (ASCII and multi-byte text; non-ASCII text is judged by the oracle "
+                "only: bytes handed over == text.encode()), through sendall(_stderr) or ChannelFile/ChannelStderrFile "
+                "write+flush; several senders asleep on one channel; a case is "
                 "non-trivial when the data is non-empty and it needs >= 2 chunks, or raises, or has events")
     ctx.trusted += ["model coq/Model/C25.v is hand-written; tied to paramiko/channel.py (sendall, sendall_stderr, "
                     "send, send_stderr, _send, _wait_for_send_window, _window_adjust, close, _handle_close, _unlink, "
